@@ -18,6 +18,7 @@ THEOREMS = {
                                     "SchedNV.vecGridPoint_props", "SchedNV.vecWalk_entry_from_map", "SchedNV.searchLeft_le"],
     "SpecKitV.Props.C02": ["ltfPlan_safe", "lpsdPlan_safe", "newPlan_safe", "vecPlan_safe", "planValidate_ok", "planValidate_ok_lpsd"],
     "SpecKitV.Props.SchedGen": ["gen_ltf_round_eq", "gen_ltf_walk_eq_model", "gen_new_walk_eq_model"],
+    "SpecKitV.Props.VecGen": ["Arr.memo_eq", "Np.logspace_get", "Np.searchsortedLeft_eq", "gen_vec_walk_eq_model", "gen_vec_walk_eq_plan"],
     "SpecKitV.Props.StartsGen": ["gen_ltf_starts_eq_model", "gen_ltf_starts_safe"],
     "SpecKitV.Props.Utils": ["gen_round_half_up_eq_model", "gen_round_half_up_eq_floor"],
 }
